@@ -60,7 +60,12 @@ func (p *TriggerPool) Start(ctx context.Context) context.Context {
 	// context.Done() and context.Err() for context that can be cancelled use a Lock.
 	// To avoid frequent locking - use an atomic.Bool for cancellation instead of checking the
 	// context on each iteration
+	//
+	// The pool is only complete once this goroutine has drained and reported the work that was still
+	// pending when triggering stopped, so it is part of what WaitForCompletion waits for.
+	p.manager.runningWorkers.Add(1)
 	go func() {
+		defer p.manager.runningWorkers.Done()
 		<-workerCtx.Done()
 		verifhook.Yield("tp.stopper.woken", p, 0)
 		p.stop()
